@@ -58,6 +58,8 @@ def zernike(mask, index, normalize=True, rho=None, theta=None):
     #mask = mask[mask_slice]
 
     if rho is None:
+        if theta is not None:
+            raise ValueError("Both rho and theta must be specified")
         rho, theta = zernike_coordinates(mask)
     else:
         if theta is None:
